@@ -47,20 +47,21 @@ def do_import(src, prop):
         sh("git -C /repo worktree remove --force %s" % wt)
 
 def do_run(sid, tier="quick", props=None):
+    """The change is applied to a scratch worktree of /repo's HEAD (outside /repo and /verif); the checks run against it through
+    BNP_REPO and write their evidence into the scratch tree, so neither /repo nor /verif/evidence is touched."""
     d = os.path.join(V, "seeded", sid)
     meta = json.load(open(os.path.join(d, "meta.json")))
     props = props or [meta["property"]]
-    rc, out = sh("git -C /repo status --porcelain --untracked-files=no")
-    if out.strip():
-        print("REFUSING: /repo has uncommitted tracked changes"); return 2
-    rc, out = sh("git -C /repo apply %s/patch.diff" % d)
-    if rc:
-        print("patch does not apply:", out); return 2
+    wt = "/tmp/seedrun-%d" % os.getpid()
+    sh("git -C /repo worktree add -q --detach %s HEAD" % wt)
     results = {}
     try:
+        rc, out = sh("git apply %s/patch.diff" % d, cwd=wt)
+        if rc:
+            print("patch does not apply:", out); return 2
         for p in props:
             t0 = time.time()
-            rc, out = sh("./check %s --tier %s" % (p, tier), cwd=V)
+            rc, out = sh("BNP_REPO=%s VERIF_EVIDENCE_DIR=%s/.verif_evidence ./check %s --tier %s" % (wt, wt, p, tier), cwd=V)
             viol = [l for l in out.splitlines() if l.startswith("VIOLATION")]
             results[p] = {"exit": rc, "violations": len(viol), "wall_s": round(time.time() - t0, 1)}
             print("%s under %s: exit=%d violation_lines=%d" % (p, sid, rc, len(viol)))
@@ -68,7 +69,7 @@ def do_run(sid, tier="quick", props=None):
                 if l.startswith("  what") or l.startswith("MACHINERY"):
                     print("   ", l[:260]); break
     finally:
-        sh("git -C /repo checkout -- .")
+        sh("git -C /repo worktree remove --force %s" % wt)
     meta.setdefault("detected_by", {})
     for p, r in results.items():
         meta["detected_by"]["%s/%s" % (p, tier)] = r
